@@ -96,7 +96,9 @@ def main(tier):
     V.run([hv, 'gen', str(500 if quick else 15000), str(V.seed()), fh, 'hist'], check=True)
     fm = os.path.join(d, 'med.txt')
     V.run([hv, 'gen', str(300 if quick else 8000), str(V.seed() + 1), fm, 'med'], check=True)
-    for src in (fh, fm):
+    fd = os.path.join(d, 'dag.txt')
+    V.run([hv, 'gen', str(2500 if quick else 40000), str(V.seed() + 2), fd, 'dag'], check=True)
+    for src in (fh, fm, fd):
         ofv = src + '.json'
         rc, out = V.run([hv, 'repeat', src, ofv], timeout=1800, env={'VERIF_SEED': V.seed()})
         if rc != 0:
